@@ -52,6 +52,7 @@ type FuncRun struct {
 	checkSeen  map[string]int // internal (check) clauses: number of return paths on which they could be evaluated
 	checkSkip  map[string]int
 	pendingBindings []Val
+	pendingSrc      []ssa.Value
 	epochInfo map[int]*epochInfo
 	unknownCalls map[string]bool
 	usedContracts map[string]bool
@@ -831,6 +832,7 @@ func (run *FuncRun) execInstr(st *State, instr ssa.Instruction) bool {
 		c := &Closure{Fn: in.Fn.(*ssa.Function)}
 		for _, b := range in.Bindings {
 			c.Bindings = append(c.Bindings, run.val(st, b))
+			c.Src = append(c.Src, b)
 		}
 		run.set(st, in, c)
 	case *ssa.Range:
